@@ -53,6 +53,10 @@ CHECKS = {
          "The real connection handler (client_handler, obtained from the App exactly as run() hands it to the pool) serves a scripted socket. Enumerated: every single request of methods {GET,POST,PUT,DELETE,OPTIONS} x targets {routed, unrouted, CORS route, body echo, empty body, panicking} x Connection {keep-alive in 3 spellings, close, absent, list} x {HTTP/1.0, 1.1}, Content-Length bodies of 0/1/5 bytes, 8 malformed shapes (start line, header, length); all 29 x 41 ordered pairs (triples in thorough). Plans: everything in one segment, one segment per request, byte-by-byte, every single cut (all positions for singles, around every structural boundary for pairs; pairs of cuts in thorough), and with a connection timeout configured the client going silent before each request. A strict response-stream reader and a reference server decide: one response per request in order, request's version, Date in IMF-fixdate syntax, Server, the matched route's CORS headers and no others, body = handler output with exact Content-Length, every response after which the connection stays open self-delimiting, 400-then-close for malformed, 408-then-close on timeout, no response and propagated panic for the panicking handler, handler log = request list. A scheduler-explored scenario (3 connections, one to the panicking route, deviation bound 1 (2)) checks that the other connections are served normally.",
          "Trusted: reference server model and strict reader in checks/src/props/c01.rs; scripted socket semantics (a read returns at most the current segment). Only the threaded runtime. Known findings: stray CRLF after bodies (pinned by tests), requests coalesced into one segment (read-ahead discarded).",
          "DESIGN.md §3 C01"),
+ "C04": ("E2-enum", "exhaustive enumeration of bounded routing configurations x requests against a reference router",
+         "Every application of the family {default application with every ordered route list of length <=2 (3) over 10 patterns; one host sub-app from 4 host patterns x route lists <=2 x default route lists <=2 over 5 patterns; every ordered pair of host sub-apps x route lists <=2 x default lists <=1 (2); in thorough every ordered triple of hosts} is built through the public API (with_host / with_route / with_websocket_route / with_default_subapp), so shadowing and overlap arise by construction. Each is asked, through the real connection handler over a scripted socket, for every request of Host {absent, exact, wildcard-matching, with port, non-matching} x 8 targets (with/without query, queries that contain other routes) x {plain, WebSocket upgrade} plus decoy headers. Every handler answers with its (host index, route index); the answer must equal the reference router's choice (first matching host, first matching route there, else first matching default route, else 404 / closed without upgrade), with `matches` the DP glob reference of C05.",
+         "Trusted: reference router (15 lines) and the C05 glob reference. Threaded runtime only. Host patterns are matched against the raw Host header value.",
+         "DESIGN.md §3 C04"),
 }
 NOT_YET = {}
 
